@@ -246,13 +246,23 @@ func (d *Document) GetPageSettings() *PageSettings {
 
 	if sectPr.PageMargins != nil {
 		// 解析页面边距
-		settings.MarginTop = twipsToMM(parseFloat(sectPr.PageMargins.Top))
-		settings.MarginRight = twipsToMM(parseFloat(sectPr.PageMargins.Right))
-		settings.MarginBottom = twipsToMM(parseFloat(sectPr.PageMargins.Bottom))
-		settings.MarginLeft = twipsToMM(parseFloat(sectPr.PageMargins.Left))
-		settings.HeaderDistance = twipsToMM(parseFloat(sectPr.PageMargins.Header))
-		settings.FooterDistance = twipsToMM(parseFloat(sectPr.PageMargins.Footer))
-		settings.GutterWidth = twipsToMM(parseFloat(sectPr.PageMargins.Gutter))
+		// 其他生成器写的 w:pgMar 可能缺少部分属性：缺少的属性保持默认值，而不是读成 0
+		for _, a := range []struct {
+			raw string
+			dst *float64
+		}{
+			{sectPr.PageMargins.Top, &settings.MarginTop},
+			{sectPr.PageMargins.Right, &settings.MarginRight},
+			{sectPr.PageMargins.Bottom, &settings.MarginBottom},
+			{sectPr.PageMargins.Left, &settings.MarginLeft},
+			{sectPr.PageMargins.Header, &settings.HeaderDistance},
+			{sectPr.PageMargins.Footer, &settings.FooterDistance},
+			{sectPr.PageMargins.Gutter, &settings.GutterWidth},
+		} {
+			if a.raw != "" {
+				*a.dst = twipsToMM(parseFloat(a.raw))
+			}
+		}
 	}
 
 	// 解析文档网格设置
